@@ -46,3 +46,60 @@ Proof.
   eexists _, ws. split; [exact Eres|]. rewrite Hs', Hi', Hn', Hid, Hname.
   repeat split; auto.
 Qed.
+
+(* ---------- C11 at the entry point ---------------------------------------------------------------- *)
+
+From MV Require Import NextLevel ShapeTyping Anchors TypingLemmas RecordLemmas.
+
+(* the product returned by vector.assemble(...) as regenerated — the object itself, with the
+   features, references and annotations it carries, and any rotation of its sequence — is accepted
+   by the regenerated is_valid of the generic next-level module class *)
+Theorem src_entry_next_level (sh : shape) (e' : enzyme) (k k' : nat) vector m ms kw hd prod ws (j : Z) (i : nat) :
+  good_ent vector -> Forall good_ent (m :: ms) ->
+  map ent_id (m :: ms) = seq 0 (List.length (m :: ms)) -> ent_id vector = List.length (m :: ms) ->
+  deref_elems ((m :: ms) ++ [vector]) [] (heap_of (vector :: m :: ms)) = Ok hd ->
+  cpat (ent_cls vector) = shape_pat sh -> crole (ent_cls vector) = RVector ->
+  embeds (esite e') (rc_codes (esite e')) (eoff e') (eovh e') k k' sh = true ->
+  (0 < List.length (esite e'))%nat ->
+  fst (run_assemble (S (S (List.length (m :: ms)))) vector (m :: ms) kw) = Ok (prod, ws) ->
+  (forall INS vt, pr_seq prod = INS ++ vt -> target (ent_cls vector) (ent_seq_w vector) true = Some vt ->
+     Forall nucl INS /\ (eovh e' + 2 <= List.length INS)%nat) ->
+  occurs_once (esite e') (pr_seq prod) -> occurs_once (rc_codes (esite e')) (pr_seq prod) ->
+  Z.of_nat (List.length (pr_seq prod)) <= py_MAXSIZE ->
+  StructuredRecord_is_valid (src_entity i (generic_cls RModule e') (rotr j (pr_seq prod))) = Ok true
+  /\ StructuredRecord_is_valid (ENT i (generic_cls RModule e') prod) = Ok true.
+Proof.
+  intros Gv Gm Hids Hvid Ede Hp Hr Hemb Hs HA Hins O1 O2 Hfit.
+  pose proof (entry_point_outcome vector m ms kw hd Gv Gm Hids Hvid Ede) as HO. rewrite HA in HO.
+  cbn [outcome_of] in HO.
+  destruct (vector_assemble (S (S (List.length (m :: ms)))) vector (m :: ms)) as [[prod0 ws0]|x] eqn:HA0.
+  2:{ destruct x; cbn in HO; try discriminate. destruct o; discriminate. }
+  cbn [outcome_of] in HO. inversion HO as [[Hseq Hun]].
+  assert (NL : forall j0, StructuredRecord_is_valid (src_entity i (generic_cls RModule e') (rotr j0 (pr_seq prod))) = Ok true).
+  { intros j0. rewrite Hseq.
+    apply (src_next_level sh e' k k' vector (m :: ms) prod0 ws0 j0 i Gv Gm Hids Hp Hr Hemb Hs HA0); rewrite <- Hseq; auto. }
+  split; [apply NL|].
+  (* the object itself: is_valid reads its class, its sequence and that it is circular *)
+  assert (Hkind : pr_kind prod = KCircularRecord).
+  { pose proof (vector_assemble_eq vector (m :: ms) Gv Gm Hids) as Hm. rewrite HA0 in Hm. cbn [outcome_of] in Hm.
+    pose proof (run_assemble_records vector m ms kw hd Gv Gm Hids Hvid Ede) as RR.
+    destruct (assemble_raw (ent_cls vector) (ent_seq_w vector) (map raw_of (m :: ms))) as [w0 used unused| | | |];
+      cbn in Hm; try discriminate.
+    destruct RR as (p' & ws'' & mgr' & usedE & Eres' & _ & _ & Kp & _).
+    rewrite HA in Eres'. inversion Eres' as [[Hp' Hws']].
+    destruct (product_metadata mgr' (pr_id (ent_record vector)) (map (fun x => pr_id (ent_record x)) (m :: ms)) p') as (Hk' & _).
+    exact (eq_trans Hk' Kp). }
+  assert (Hf : fits (ENT i (generic_cls RModule e') prod)) by (unfold fits; cbn; exact Hfit).
+  rewrite (StructuredRecord_is_valid_eq _ Hf).
+  assert (Hc : ent_circ (ENT i (generic_cls RModule e') prod) = true).
+  { unfold ent_circ. cbn [ent_record]. unfold is_CircularRecord. rewrite Hkind. apply orb_true_r. }
+  rewrite Hc. cbn [ent_cls ent_record].
+  specialize (NL 0).
+  assert (Hf0 : fits (src_entity i (generic_cls RModule e') (rotr 0 (pr_seq prod))))
+    by (unfold fits, src_entity; cbn; now rewrite rotr_length).
+  rewrite (StructuredRecord_is_valid_eq _ Hf0) in NL.
+  assert (Hc0 : ent_circ (src_entity i (generic_cls RModule e') (rotr 0 (pr_seq prod))) = true)
+    by (unfold ent_circ, src_entity; cbn; apply orb_true_r).
+  rewrite Hc0 in NL. cbn [src_entity ent_cls ent_record pr_seq] in NL.
+  rewrite rotr_0 in NL. exact NL.
+Qed.
